@@ -6,7 +6,7 @@ CONSTANTS
   InRuns = {"no"}
   Lates = {FALSE}
   MaxIdle = 1
-  MaxBoot = 1
+  BootVals = {0, 1, 3}
   QLefts = {0, 1, 9}
   CreateOKs <- FirstOff
   StartOKs <- AllTrue
